@@ -36,7 +36,8 @@ type FifoBuffer[T any] struct {
 	lock sync.Mutex
 	cond sync.Cond
 
-	buffer []T
+	buffer   []T
+	released bool
 }
 
 func NewFifoBuffer[T any]() (result FifoBuffer[T]) {
@@ -54,17 +55,18 @@ func (this *FifoBuffer[T]) Push(value T) {
 	this.cond.L.Unlock()
 }
 
-// Blocks until it has some value in internal buffer
+// Blocks until it has some value in internal buffer or until ReleaseGoroutines is called.
+// After ReleaseGoroutines it never blocks: it returns what is left in the buffer, then nothing.
 func (this *FifoBuffer[T]) PopMultiple(numberToPop uint) (result []T) {
 	this.cond.L.Lock()
 	defer this.cond.L.Unlock()
 
 	for len(this.buffer) == 0 {
-		this.cond.Wait()
-		// this check is used when ReleaseGoroutines is called on waiting goroutine
-		if len(this.buffer) == 0 {
+		// the release is remembered, so a goroutine which arrives here after the broadcast does not wait forever
+		if this.released {
 			return
 		}
+		this.cond.Wait()
 	}
 
 	result = make([]T, int(math.Min(float64(numberToPop), float64(len(this.buffer)))))
@@ -82,6 +84,7 @@ func (this *FifoBuffer[T]) Length() int {
 
 func (this *FifoBuffer[T]) ReleaseGoroutines() {
 	this.cond.L.Lock()
+	this.released = true
 	this.cond.Broadcast()
 	this.cond.L.Unlock()
 }
